@@ -45,6 +45,17 @@ def gen_cases(rng, tier):
             cases.append((s, a + [-777, g, x, cv]))
         s, a = px_case(0, mode, hq, True, color, False, x, 1, row)
         cases.append((s, a + [-777, g, x, 999]))
+    # partial coverage through the public API in every colour space: thin anti-aliased strokes (hairline blitters, coverage
+    # folded into the paint for sub-pixel widths) and fractional fill_rect edges, every blend mode, both pipelines
+    for i in range(500 if tier == "quick" else 8000):
+        cs = rng.choice([0, 0, 1, 2, 3])
+        col = rand_color(rng)
+        if rng.random() < 0.4:
+            col = list(col[:3]) + [255]
+        dst = rand_premul(rng) if rng.random() < 0.7 else rng.choice([(0, 0, 0, 0), (255, 255, 255, 255), (200, 200, 200, 255), (0, 0, 0, 255), (40, 90, 240, 255)])
+        shape = rng.choice([0, 0, 1])
+        width = rng.choice([0, 0, 250, 500, 800, 1000, 1500, 3000]) if shape == 0 else rng.choice([100, 250, 500, 750, 900])
+        cases.append(("thin_cov", [cs, rng.randrange(29), int(rng.random() < 0.4)] + list(col) + list(dst) + [shape, width]))
     # shader opacity: a constant-colour Pattern with opacity, anti-aliased fill (pat_px kind 2): edge = interior x coverage
     for i in range(120 if tier == "quick" else 1500):
         w, h = rng.choice([(8, 8), (12, 6), (5, 9)])
@@ -68,6 +79,19 @@ def oracle(suite, args, out):
         return _c15.oracle(suite, args, out)
     if suite == "pat_px":
         return _c16.oracle(suite, args, out)
+    if suite == "thin_cov":
+        o = ints(out)
+        if len(o) >= 8 and o[1] > 0:
+            return "THINCOV cs%d: %d partially covered pixels leave the range between 'not drawn' and 'fully drawn' (first (%d,%d) channel %d = %d, destination %d, fully drawn %d; %s, %s)" % (
+                args[0], o[1], o[2], o[3], o[4], o[5], o[6], o[7], MODES[args[1] % 29], "stroke width %g" % (args[12] / 1000.0) if args[11] == 0 else "fill_rect edge")
+        return None
+    return None
+
+
+def known_class(suite, args, out, what):
+    # non-linear colour space + translucent colour: the full-coverage fast path and the general pipeline disagree
+    if suite == "thin_cov" and args[0] % 4 != 0 and args[6] < 255:
+        return "C11-nonlinear-colorspace-partial-coverage"
     return None
 
 
@@ -124,6 +148,8 @@ def post_oracle(cases, outs):
 
 
 def relation(suite, args, mo, io):
+    if suite == "thin_cov":
+        return mo.strip() == "-9"
     if suite == "pat_px":
         return _c16.relation(suite, args, mo, io)
     if suite == "grad_px":
@@ -132,6 +158,9 @@ def relation(suite, args, mo, io):
 
 
 def nontrivial_tag(suite, args, out):
+    if suite == "thin_cov":
+        o = out.split()
+        return "thin:cs%d" % args[0] if o and o[0].isdigit() and int(o[0]) > 0 else None
     if suite == "pat_px":
         o = out.split()
         return "pattern-opacity" if o and o[0].isdigit() and int(o[0]) > 0 else None
